@@ -97,8 +97,23 @@ OpCases(s) ==
    \cup {<<"remove", S, 0, RemoveIdx(s, S)>> : S \in Subsets0(n)}
    \cup {<<"concat", 0, 0, [p \in 1..(2 * n) |-> p]>>}       \* with a second track whose observations are n+1..2n
 
-Init == /\ kind \in {"ops", "search"}
+(* ---- concatenation and the feature tables of the operands ------------------------------ *)
+\* A track lists its features in an ORDER (name -> column) and each of its observations carries its values in that order.
+\* t1 + t2 shares the observation objects of both operands, so the result may carry a table only if reading a name through
+\* it finds, in every observation, that observation's own value: the column of the name must be the same in both operands.
+\* As coded: the table of t1 when both tables are EQUAL AS LISTS, no table otherwise.  LegacyTables = equal as SETS (refuted).
+Names == {"f", "g", "h"}
+Tables == UNION {{q \in [1..n -> Names] : \A i, j \in 1..n : i # j => q[i] # q[j]} : n \in 0..3}
+Col(tab, name) == CHOOSE k \in DOMAIN tab : tab[k] = name
+ConcatTable(t1, t2, legacy) ==
+   IF legacy THEN (IF Len(t1) = Len(t2) /\ {t1[k] : k \in DOMAIN t1} = {t2[k] : k \in DOMAIN t2} THEN t1 ELSE <<>>)
+   ELSE (IF t1 = t2 THEN t1 ELSE <<>>)
+OwnValues(t1, t2, r) == \A k \in DOMAIN r : /\ r[k] \in {t1[j] : j \in DOMAIN t1} /\ Col(t1, r[k]) = k
+                                             /\ r[k] \in {t2[j] : j \in DOMAIN t2} /\ Col(t2, r[k]) = k
+
+Init == /\ kind \in {"ops", "search", "tables"}
         /\ IF kind = "ops" THEN \E n \in 0..MaxN : T \in Seqs(n)
+           ELSE IF kind = "tables" THEN T \in Tables \X Tables
            ELSE \E n \in 0..SearchN : T \in SortedSeqs(n)
 Next == /\ kind = "ops" /\ Emit
         /\ PrintT(ToJson([T |-> T, ops |-> OpCases(T)]))
@@ -106,6 +121,10 @@ Next == /\ kind = "ops" /\ Emit
 Spec == Init /\ [][Next]_vars
 
 (* ---- properties checked on the model ---------------------------------------- *)
+\* whatever the two feature tables, every name readable on t1 + t2 reads each observation's own value; equal tables are kept
+ConcatReadsOwnValues == kind = "tables" => /\ OwnValues(T[1], T[2], ConcatTable(T[1], T[2], FALSE))
+                                           /\ (T[1] = T[2] => ConcatTable(T[1], T[2], FALSE) = T[1])
+ConcatLegacyTables == kind = "tables" => OwnValues(T[1], T[2], ConcatTable(T[1], T[2], TRUE))        \* self-test: REFUTED
 \* every operator designates an ascending list of source positions (a sub-sequence in original order)
 Ascending(r) == \A p \in 1..(Len(r) - 1) : r[p] < r[p + 1]
 OpsAreSubsequences == kind = "ops" => \A c \in OpCases(T) : Ascending(c[4]) /\ (c[1] # "concat" => \A p \in Pos(c[4]) : c[4][p] \in Pos(T))
